@@ -348,3 +348,133 @@ Proof.
   pose proof (order_run progs _ _ _ (order_init b false progs) H t) as O.
   exists (prog_at s t). rewrite <- L, of_thread_put_of, <- P. exact O.
 Qed.
+
+(* ------------------------------------------------------------------ progress: a step bound for every interleaving *)
+Definition Qc (l : list entry) : nat := fold_right (fun e a => 6 + length (e_frame e) + a) 0 l.
+Lemma cost_Qc l : cost l = Qc l + 2.
+Proof. unfold cost, Qc. induction l as [|e l IH]; cbn [fold_right]; [reflexivity|]. rewrite IH. lia. Qed.
+Lemma Qc_app a b : Qc (a ++ b) = Qc a + Qc b.
+Proof. unfold Qc. induction a as [|e a IH]; cbn [fold_right app]; [reflexivity|]. rewrite IH. lia. Qed.
+Lemma Qc_firstn j l : Qc (firstn j l) <= Qc l.
+Proof. rewrite <- (firstn_skipn j l) at 2. rewrite Qc_app. lia. Qed.
+
+(* the entries among the first k puts that are not yet written completely *)
+Definition pl (k : nat) (s : wstate) : list entry := firstn (k - ws_ndone s) (held (ws_w s) ++ ws_q s).
+(* worker steps already spent on the head of that list since the select before it *)
+Definition progress (w : wpc) : nat :=
+  match w with
+  | PSel => 0 | PTop => 1 | PRdy => 2 | PGet => 3 | PPend _ => 4 | PClr _ | PBase _ => 5
+  | PWr e data => 6 + (length (e_frame e) - length data)
+  | _ => 0
+  end.
+Definition todo (k : nat) (s : wstate) : nat := Qc (pl k s) + 1 - progress (ws_w s).
+
+Definition wl (l : label) : nat := if is_wlabel l then 1 else 0.
+Definition nr (l : label) : nat := match l with LReady false => 3 | _ => 0 end.
+
+Ltac proj := cbn [ws_ndone ws_w ws_q ws_puts ws_base ws_wire ws_err ws_conn ws_pending ws_subs set_subs set_q set_puts set_w
+                     set_base set_wire set_ndone set_err set_conn set_pending wfail] in *.
+Ltac calc := unfold Qc in *; cbn [held app firstn fold_right progress] in *.
+
+Lemma todo_step k s l s' : Inv s -> ws_err s = None -> k <= length (ws_puts s) ->
+  wstep s l = Some s' -> accepted_write l = true ->
+  k <= ws_ndone s' \/ todo k s' + wl l <= todo k s + nr l.
+Proof.
+  intros I E Hk H A. destruct (le_lt_dec k (ws_ndone s)) as [Le|Lt].
+  { left. destruct (puts_step _ _ _ H) as (_ & _ & _ & N). lia. }
+  destruct I as [Hp (done & Hs & Hl & Hw) Ht Hh Hc Hn].
+  assert (Hlen : k - ws_ndone s <= length (held (ws_w s) ++ ws_q s)).
+  { rewrite Hs, app_length in Hk. lia. }
+  unfold todo, pl. remember (k - ws_ndone s) as j eqn:Ej. destruct j as [|j]; [lia|].
+  destruct l; cbn [wl nr is_wlabel].
+  - (* LChk *) inv_step H; right; proj; rewrite <- Ej; lia.
+  - (* LPut *) inv_step H. right. proj. rewrite <- Ej.
+    rewrite app_assoc, firstn_app. replace (S j - length (held (ws_w s) ++ ws_q s)) with 0 by lia.
+    cbn [firstn]. rewrite app_nil_r. lia.
+  - (* LSetBase *) inv_step H; right; proj; rewrite <- Ej; rewrite ?Heql; lia.
+  - (* LEmpty *) inv_step H; wpc Hw; proj; rewrite <- ?Ej.
+    + destruct (ws_q s); [cbn in Hlen; lia|discriminate].
+    + right. destruct (ws_q s); [discriminate|]. calc. lia.
+  - (* LReady *) inv_step H; wpc Hw; proj; rewrite <- ?Ej; right;
+    (destruct (ws_q s); [exfalso; apply Hn; auto|]); calc; lia.
+  - (* LGet *) inv_step H; wpc Hw; proj; rewrite <- ?Ej. right. calc. lia.
+  - (* LPendRd *) inv_step H; wpc Hw; proj; rewrite <- ?Ej;
+    match goal with X : Bool.eqb _ _ = true |- _ => apply Bool.eqb_prop in X; rewrite Hp in X; try discriminate X end.
+    right. calc. lia.
+  - (* LPendClr *) inv_step H. exfalso. eapply Hc. reflexivity.
+  - (* LBaseRd *) inv_step H; wpc Hw; proj; rewrite <- ?Ej.
+    match goal with X : base_eqb _ _ = true |- _ => apply base_eqb_eq in X; subst b end.
+    right. calc. rewrite <- (Hh e) by auto. fold (e_frame e). lia.
+  - (* LWrite *) inv_step H; wpc Hw; proj; rewrite <- ?Ej; cbn [accepted_write] in A; try discriminate A;
+    try (rewrite Heqb0 in A; discriminate A).
+    all: destruct Hw as [(partial & Hw1 & Hw2 & Hw3) _].
+    all: assert (Lf : length (e_frame e) = length partial + length data) by (rewrite Hw2, app_length; reflexivity).
+    all: assert (Ld : 1 <= length data) by (destruct data; [congruence|cbn; lia]).
+    + right. replace (k - S (ws_ndone s)) with j by lia. calc. lia.
+    + right. calc.
+      assert (Lk : length (n0 :: l) = length data - N.to_nat n) by (rewrite <- Heql; apply skipn_length).
+      assert (Ln : 1 <= N.to_nat n) by (apply N.eqb_neq in Heqb0; lia).
+      cbn [length] in *. lia.
+  - (* LSelect *) inv_step H; wpc Hw; proj; rewrite <- ?Ej. right. calc. lia.
+  - (* LDispErr *) inv_step H; wpc Hw. destruct Hw; congruence.
+  - (* LClose *) inv_step H; wpc Hw. destruct Hw as (x & X & _); congruence.
+Qed.
+
+Lemma wsteps_cons l r : wsteps (l :: r) = wl l + wsteps r.
+Proof. unfold wsteps, wl. cbn [filter]. destruct (is_wlabel l); reflexivity. Qed.
+Lemma notready_cons l r : 3 * notready (l :: r) = nr l + 3 * notready r.
+Proof. unfold notready, nr. cbn [filter]. destruct l as [| | | |[|]| | | | | | | |]; cbn [length]; lia. Qed.
+
+Lemma todo_run k : forall ls s s', Inv s -> ws_err s = None -> k <= length (ws_puts s) ->
+  wrun s ls = Some s' -> forallb accepted_write ls = true ->
+  k <= ws_ndone s' \/ todo k s' + wsteps ls <= todo k s + 3 * notready ls.
+Proof.
+  induction ls as [|l r IH]; cbn [wrun forallb]; intros s s' I E Hk H A.
+  - injection H as <-. right. cbn. lia.
+  - destruct (wstep s l) eqn:X; [|discriminate]. apply andb_prop in A as [A1 A2].
+    destruct (puts_step _ _ _ X) as (m1 & P1 & _ & _). destruct (puts_run _ _ _ H) as (_ & _ & _ & N2).
+    destruct (todo_step k _ _ _ I E Hk X A1) as [L|R]; [left; lia|].
+    assert (Hk1 : k <= length (ws_puts w)) by (rewrite P1, app_length; lia).
+    destruct (IH _ _ (inv_step _ _ _ I X) (err_step _ _ _ X A1 E) Hk1 H A2) as [L|R2]; [left; exact L|].
+    right. rewrite wsteps_cons, notready_cons. lia.
+Qed.
+
+Lemma inv_wire_done s : Inv s ->
+  exists done p, ws_puts s = done ++ held (ws_w s) ++ ws_q s /\ length done = ws_ndone s /\ ws_wire s = frames done ++ p.
+Proof.
+  intros [_ (done & Hs & Hl & Hw) _ _ _ _]. unfold wire_ok, mid in Hw. exists done.
+  destruct (ws_w s); try (exists []; rewrite app_nil_r; destruct Hw; auto; fail).
+  - destruct Hw as [(p & H1 & _) _]. eauto.
+  - destruct Hw as [_ (p & H1 & _)]. eauto.
+  - destruct Hw as (x & _ & p & H1 & _). eauto.
+  - destruct Hw as (x & _ & p & H1 & _). eauto.
+Qed.
+
+Lemma todo_le_cost k s : Inv s -> todo k s + 1 < cost (ws_puts s) + 1.
+Proof.
+  intros [_ (done & Hs & _ & _) _ _ _ _]. unfold todo, pl. rewrite cost_Qc, Hs, Qc_app.
+  pose proof (Qc_firstn (k - ws_ndone s) (held (ws_w s) ++ ws_q s)). lia.
+Qed.
+
+Lemma c02_sched_eventually : forall b progs ls s ls2 s',
+  wrun (winit b false progs) ls = Some s -> ws_err s = None ->
+  wrun s ls2 = Some s' -> forallb accepted_write ls2 = true ->
+  cost (lentries b ls) + 3 * notready ls2 <= wsteps ls2 ->
+  exists more, ws_wire s' = frames (lentries b ls) ++ more.
+Proof.
+  intros b progs ls s ls2 s' H E H2 A C.
+  pose proof (entries_run _ _ _ H) as P. cbn in P. rewrite <- P in *.
+  pose proof (inv_run _ _ _ (inv_init b progs) H) as I.
+  pose proof (inv_run _ _ _ I H2) as I'.
+  destruct (todo_run (length (ws_puts s)) _ _ _ I E (le_n _) H2 A) as [L|R].
+  - destruct (inv_wire_done _ I') as (done & p & Hs & Hl & Hw).
+    destruct (puts_run _ _ _ H2) as (more & P2 & _ & _).
+    assert (D : done = ws_puts s ++ skipn (length (ws_puts s)) done).
+    { rewrite <- (firstn_skipn (length (ws_puts s)) done) at 1. f_equal.
+      assert (F : firstn (length (ws_puts s)) (ws_puts s') = ws_puts s).
+      { rewrite P2, firstn_app, Nat.sub_diag, firstn_all. cbn. apply app_nil_r. }
+      rewrite Hs, firstn_app in F. replace (length (ws_puts s) - length done) with 0 in F by lia.
+      cbn in F. rewrite app_nil_r in F. exact F. }
+    rewrite Hw, D, frames_app, <- app_assoc. eauto.
+  - pose proof (todo_le_cost (length (ws_puts s)) s I). lia.
+Qed.
